@@ -52,15 +52,15 @@ CHECKS = {
                 "lvfo,dvf}; after every step all reads of the working state and of every retained version are compared with the versioned-map model; "
                 "non-trivial = >=2 commits, a version with >=2 keys, and at least one of {removal, reopen, prune, rollback}; distinct = sha256 of the JSON history",
         "assumptions": ["reference model in /verif/harness/ref.go (anchored by the repository's TestTreeHash vectors)", "rapid v1.3.0", "Go toolchain"],
-        "quick": [{"test": "TestC01", "checks": 700, "shards": 6},
+        "quick": [{"test": "TestC01", "checks": 1400, "shards": 6},
                   {"test": "TestC01", "checks": 60, "shards": 1, "env": {"VERIF_LEVEL": "1"}}],
         "thorough": [{"test": "TestC01", "checks": 12000, "shards": 15},
                      {"test": "TestC01", "checks": 3000, "shards": 1, "env": {"VERIF_LEVEL": "1"}}],
     },
-    "C02": _world("TestC02", _R["C02"], 700, 80000),
-    "C03": _world("TestC03", _R["C03"], 250, 5000, extra_assume=["ics23/go v0.11.0 verifier (IavlSpec)"]),
+    "C02": _world("TestC02", _R["C02"], 2400, 80000),
+    "C03": _world("TestC03", _R["C03"], 500, 5000, extra_assume=["ics23/go v0.11.0 verifier (IavlSpec)"]),
     "C04": _world("TestC04", _R["C04"], 300, 4000, extra_assume=["ics23/go v0.11.0 verifier (IavlSpec)"]),
-    "C07": _world("TestC07", _R["C07"], 600, 16000),
+    "C07": _world("TestC07", _R["C07"], 1500, 16000),
     "C05": {
         "level": "fault_enumeration",
         "rule": "TestC05: a generated prefix history (8-40 steps + a burst of 0-8 large writes) on the journaling storage seam with flush threshold in {150,300,1000,100000}, then ONE operation O in {SaveVersion, DeleteVersionsTo(n), LoadVersionForOverwriting(n), (re)open with the fast index enabled = first-time / forced index build}; the seam yields the base image B and the journal J of O (one entry per physical batch write) and EVERY cut k in [0,|J|] is enumerated, each recovered twice (fast index on / off): reopening B+J[:k] must succeed, AvailableVersions must be the state before or after O (for DeleteVersionsTo also a shorter deletion, since it deletes version by version), every version of that state is re-read completely (hash, contents through walk and fast paths, iteration, raw f-entries vs label), then O is repeated and must reach the crash-free result, verified through a fresh handle. TestC05Import: import commit (plain/compressed, with a root inherited from an earlier version, with fast-index build) cut at every write, incl. retry of the import. non-trivial = |J| >= 2 (the operation was split over several physical writes); exhaustive within each history, sampled across histories",
@@ -78,8 +78,8 @@ CHECKS = {
         "thorough": [{"test": "TestC06Plan", "checks": 3000, "shards": 10}, {"test": "TestC06Stress", "checks": 12000, "shards": 4, "race": True, "env": {"GORACE": "halt_on_error=0"}},
                      {"test": "TestC06Stress", "checks": 6000, "shards": 2, "race": True, "env": {"GORACE": "halt_on_error=0", "VERIF_GOMAXPROCS": "2"}}],
     },
-    "C08": _world("TestC08", _R["C08"], 500, 60000),
-    "C09": _world("TestC09", _R["C09"], 300, 8000),
+    "C08": _world("TestC08", _R["C08"], 2000, 60000),
+    "C09": _world("TestC09", _R["C09"], 700, 8000),
     "C10": {
         "level": "exploration",
         "rule": _R["C10"] + " | (b) TestC10Hostile: valid export streams (plain and compressed) of generated trees are mutated (swap, drop, duplicate, height +-, version in {negative, MinInt64, 0, > import version, MaxInt64}, nil/empty key or value, value on any node, nil node, hostile key prefix, truncation, wrong import version) or replaced by random ExportNode sequences, fed to Importer / CompressImporter and ended by Commit or Close: no panic, no hang (60 s watchdog = inconclusive), error or commit; unless Commit succeeded a fresh tree on that store must Load() as (0,nil) with no version visible; non-trivial = mutated stream in which >=1 inner node was accepted (stack-rebuild branch). TestC10Big: >10000-node streams (5001-5400 leaves) committed (reference hash, all keys) / closed / failing after the first 10000-node batch was flushed.",
@@ -94,7 +94,7 @@ CHECKS = {
         "level": "exploration",
         "rule": "insertion-order profiles (ascending, descending, alternating ends, random with removals, remove-a-contiguous-run to empty subtrees) with interleaved commits, trees up to 300 keys (quick) / 3000 keys (thorough); for the working tree and every version: Height()/Size() equal the reference tree's and satisfy h <= 1.4405*log2(n+2); GetByIndex(i) = i-th sorted pair and GetWithIndex(k) = rank for ALL keys and ranks, insertion rank for absent neighbours, nil for out-of-range ranks (n, n+5, -1); Has and Get of every key agree with the rank lookups, and keys of the last committed version removed in the working tree are absent for GetWithIndex, Has and Get alike; fast index on in a third of the cases; with cache size 0 on a counting storage wrapper, on fresh tree objects: <= 2h+2 storage reads for Get (walk) / Has / GetWithIndex / GetByIndex / Get(absent), <= 10h+10 for GetProof. non-trivial = size >= 8 and >= 1 double rotation in the reference; distinct = sha256 of the op list",
         "assumptions": _ASSUME + ["storage reads are counted at the KVStore interface (Get/Has calls) with the node cache disabled"],
-        "quick": [{"test": "TestC11", "checks": 120, "shards": 8}],
+        "quick": [{"test": "TestC11", "checks": 300, "shards": 8}],
         "thorough": [{"test": "TestC11", "checks": 1200, "shards": 16, "env": {"VERIF_TIER": "thorough"}}],
     },
     "C16": {
@@ -102,7 +102,7 @@ CHECKS = {
         "needs_legacygen": True,
         "rule": "a generated legacy history (1-7 versions of set/remove/save with legacy-side DeleteVersion of non-latest versions, so that orphan records and holes in the version range exist; legacy fast index on/off) is executed by the LEGACY library (iavl v0.20.0 + cometbft-db v0.7.0, co-process /verif/legacygen) which returns the raw database and the hashes / available versions it reported; the reference model must agree with that report (this anchors the model against a third implementation). The dump is loaded into a MemDB and opened with the current library: every legacy version the legacy library reports must be available with the model's contents and the legacy-reported hash, on all read paths; then 4-24 generated steps of new-format history (writes, commits with and without writes on a legacy root, DeleteVersionsTo below / at / above the boundary, LoadVersionForOverwriting and DeleteVersionsFrom to legacy versions, reopenings with re-drawn configuration) are checked against the model after every step and through a fresh handle. DeleteVersionsTo below the boundary is a no-op by design ('legacy versions are deleted at once'). TestC16Testdata: the two checked-in 0.13 databases load, every version iterates completely, a commit and a prune across the boundary keep the contents. non-trivial = the legacy side has >=1 deletion and the continuation crosses the boundary with a prune at/above it or a rollback into the legacy range",
         "assumptions": _ASSUME + ["iavl v0.20.0 + cometbft-db v0.7.0 (module cache) as the legacy oracle", "commits into a hole of the legacy version range are not generated"],
-        "quick": [{"test": "TestC16", "checks": 250, "shards": 6}, {"test": "TestC16Testdata", "checks": 1, "shards": 1, "count_cases": False}],
+        "quick": [{"test": "TestC16", "checks": 600, "shards": 6}, {"test": "TestC16Testdata", "checks": 1, "shards": 1, "count_cases": False}],
         "thorough": [{"test": "TestC16", "checks": 8000, "shards": 16}, {"test": "TestC16Testdata", "checks": 1, "shards": 1, "count_cases": False}],
     },
     "C17": {
@@ -110,7 +110,7 @@ CHECKS = {
         "rule": "a generated prefix history (6-28 steps), then ONE public call with an error result: reads on a committed version {Get, Has, GetWithIndex, GetByIndex, Iterate, Iterator loop+Error+Close, GetProof (membership and non-membership), GetMembershipProof, GetVersionedProof, GetVersioned, GetImmutable+Hash, Export loop, LoadVersion, TraverseStateChanges, VersionExists/AvailableVersions/GetLatestVersion}, reads on the working tree {Get, Iterate, Iterator}, writes {Set+SaveVersion, Remove+SaveVersion, SaveVersion without changes, DeleteVersionsTo, DeleteVersionsFrom, LoadVersionForOverwriting, SaveChangeSet (set / delete), Import+Commit}, on a cold handle (cache 0/2/1000, fast index on/off, SyncOption on in a quarter of the cases, the handle on a PrefixDB namespace of the store in a quarter - faults are injected below the PrefixDB; in a third of the eligible cases the call is the FIRST call on a brand-new handle, which discovers the version range under the faults). A fault-free run on a cloned image records the result R and the number n of storage calls; then EVERY position k in [1,n] is faulted once (Get, Has, Iterator/ReverseIterator creation, iterator step, batch Set/Delete/Write) on a fresh clone, plus 0-3 drawn multi-fault sets; TestC17BigImport fails each physical batch write of a >10000-node import (background flushes and the final write) in turn, under a watchdog (an import that never returns does not surface the fault either). Oracle: an error, or exactly R (fault on an irrelevant path); never another value, an absence, a shorter iteration/export, a panic or a process abort; a write call must not report success when a storage write failed; the store left behind by a failed single-batch write reopens with every listed version readable and unchanged; after a FAILED DeleteVersionsTo(n) the same handle commits once more (storage healthy again) and every version above n must still be intact through a fresh handle; a load that reported success under a fault must leave a handle that reports the right version range. non-trivial = n >= 2 and at least one position turned the result into an error; exhaustive over positions within each case",
         "assumptions": _ASSUME + ["calls without an error result (IterateRange, IterateRangeInclusive) are outside the property", "write calls use flush threshold 100000 (one physical write); a sixth of them 150/300 where only the error-vs-success oracle applies (F7 family)"],
         "coverage_extra": {"exhaustive_within_each_history": True},
-        "quick": [{"test": "TestC17", "checks": 600, "shards": 8}, {"test": "TestC17BigImport", "checks": 2, "shards": 2}],
+        "quick": [{"test": "TestC17", "checks": 2400, "shards": 8}, {"test": "TestC17BigImport", "checks": 2, "shards": 2}],
         "thorough": [{"test": "TestC17", "checks": 60000, "shards": 14}, {"test": "TestC17BigImport", "checks": 40, "shards": 2}],
     },
     "C18": {
@@ -121,7 +121,7 @@ CHECKS = {
         "thorough": [{"test": "TestC18", "checks": 60000, "shards": 12}, {"test": "TestC18", "checks": 5000, "shards": 4, "env": {"VERIF_LEVEL": "1"}},
                      {"kind": "fuzz", "test": "FuzzC18Programs", "fuzztime": "90s"}],
     },
-    "C12": _world("TestC12", _R["C12"], 700, 25000),
+    "C12": _world("TestC12", _R["C12"], 2000, 25000),
     "C13": {
         "level": "exploration",
         "rule": _R["C13"] + " | (b) TestC13b: a reference history of 1-6 versions is written by the independent encoder (two own nonce numberings, reference roots in the 13-byte and the old 9-byte form, empty roots, optionally fast index + label); the library must Load it, report the same versions/contents/hashes/proofs, pass the raw audit and continue 3-20 generated steps (commits, prunes, rollbacks, reopens) with reference hashes; non-trivial = >=1 inner node and >=1 reference or empty root encoded. | (c) TestC13c: valid encodings for MakeNode, MakeLegacyNode, fastnode.DeserializeNode, DecodeBytes/Uvarint/Varint (verif re-export) and the reference-root reader are mutated (byte flips, truncation, splices of hostile varints: max, overflow, 2^62 length) or replaced by random bytes: error-or-value, no panic, < 64 MB allocated per call, successful decodes agree field by field with the independent decoder / encoding/binary; non-trivial = input differs from the valid encoding and is longer than 2 bytes. thorough adds native go fuzz campaigns per decoder.",
@@ -136,14 +136,14 @@ CHECKS = {
                      {"kind": "fuzz", "test": "FuzzDecodeVarint", "fuzztime": "30s"}, {"kind": "fuzz", "test": "FuzzDecodeUvarint", "fuzztime": "30s"},
                      {"kind": "fuzz", "test": "FuzzRootReader", "fuzztime": "120s"}],
     },
-    "C14": _world("TestC14", _R["C14"], 500, 16000),
-    "C15": _world("TestC15", _R["C15"], 600, 60000),
+    "C14": _world("TestC14", _R["C14"], 2000, 16000),
+    "C15": _world("TestC15", _R["C15"], 2400, 60000),
     "C19": {
         "level": "exploration",
         "module": "harness_v2",
         "rule": "normal-form histories (per version at most one Set or Remove per key; key-sorted in two thirds of the cases, arbitrary order otherwise; empty versions, shrink-to-empty, rewrites of identical values, removals of absent keys, bursts of 8-25 writes) of 1-10 versions x TreeOptions {CheckpointInterval 1,2,3,5,7,1000; CheckpointMemory off/1/300/3000 B (extra checkpoints where the interval would not place one); HeightFilter 0,1; EvictionDepth -1,0,1,2,8} x SqliteDbOptions {ShardTrees on/off}, leaf values stored, sqlite files on tmpfs; keys incl. 127/128/129/300-byte ones, values incl. 127/128/200/5000 B; in a third of the cases 1-2 commits are preceded by SetShouldCheckpoint() (a checkpoint where the interval would not place one). Three-way oracle at every commit: v2 SaveVersion hash == v1 MutableTree (MemDB) hash == reference; before and after each commit Get / Has (present and absent keys) / Size / Height and forward, inclusive and reverse iterators with bounds drawn from {nil, stored keys, extensions, prefixes, random} == versioned-map model (the iterator queries of a version run on the uncommitted working state as well as on the committed one); the range queries of a version run BEFORE its lookups (which would pull every evicted node back into memory); a third of the cases are QUIET: no reads between the commits (hashes only), contents and queries once after the last commit - a full read after every commit pulls every node back into memory and hides lazy loads of evicted nodes. non-trivial = >=1 checkpoint and >=1 non-checkpoint commit, >=1 removal and >=1 rotation in the reference",
         "assumptions": _ASSUME + ["the return values of v2 Set/Remove are not asserted (the property does not state them)", "iterator bounds are nil or non-empty"],
-        "quick": [{"test": "TestC19", "checks": 120, "shards": 8, "module": "harness_v2"}],
+        "quick": [{"test": "TestC19", "checks": 400, "shards": 8, "module": "harness_v2"}],
         "thorough": [{"test": "TestC19", "checks": 4000, "shards": 16, "module": "harness_v2"}],
     },
     "C20": {
@@ -151,7 +151,7 @@ CHECKS = {
         "module": "harness_v2",
         "rule": "C19 histories of 1-24 versions (CheckpointMemory only in cases without pruning), then Close; for EVERY retained target t the database is reopened and LoadVersion(t) must give the reference hash, Version()==t, size/height, Has/Get of every key and full forward + reverse iteration == model (targets on, just after and far after a checkpoint); at the latest version the history is continued for 0-3 versions and must return the reference hashes of the uninterrupted run; in a third of the cases DeleteVersionsTo(n) is issued mid-history (background pruning gets time, then Close + reopen): the latest version and every version at or above the last checkpoint not after n must load; in a quarter of the cases Tree.SaveSnapshot + LoadSnapshot (pre-order table) and an ingestion of the version's node stream (pre- or post-order, generated from the reference tree) through WriteSnapshot into a fresh database + LoadSnapshot must give the version's hash and contents; for every reloaded non-empty version the node stream of Tree.Export in pre- AND post-order must equal the reference traversal (key, leaf value, node version, height), and in a third of the cases the real Export stream of one drawn reloaded version is piped into WriteSnapshot of a fresh database and loaded back (hash, contents, size); forced checkpoints (SetShouldCheckpoint) as in C19; in a third of the cases without pruning / snapshot a COPY of the closed database is rolled back to a drawn version with the library's rollback primitive (bare SqliteDb.Revert + Close, as cmd/rollback does), that version is loaded and the history continues with 1-4 OTHER versions: hashes and contents must be those of a history that ended there (model forked at the target), and every version of the new history must reload after close + reopen. non-trivial = a target that is not a checkpoint (replay path) whose log since the checkpoint contains a removal",
         "assumptions": _ASSUME + ["sqlite durability / fsync is not modelled", "SaveSnapshot of an empty tree returns an error and is not generated"],
-        "quick": [{"test": "TestC20", "checks": 60, "shards": 8, "module": "harness_v2"}],
+        "quick": [{"test": "TestC20", "checks": 160, "shards": 8, "module": "harness_v2"}],
         "thorough": [{"test": "TestC20", "checks": 2500, "shards": 16, "module": "harness_v2"}],
     },
 }
